@@ -78,6 +78,14 @@ add("C15", "model-based testing: generated add/update/clear/predict histories pe
     "Closed form in float64 numpy (Cholesky); 1e-6 relative; hyper-parameters in a well-conditioned range; two known findings listed (F12, F14).",
     "DESIGN.md section 3 C15")
 
+add("C14", "model-based testing: generated update histories on both design-space classes vs model.predict on the full design matrix; region-level iterative-intersection sequences",
+    "Generated sequences of design_space.update(model, scale, subset) - subsets of size 1..N in any order, scalar / per-objective / per-design scales, "
+    "stub (known mean, covariance), empirical and the three GP model classes, fixed and adaptively refined spaces - are compared region by region with "
+    "centre = predicted mean, half-width = scale x std (rectangles) or (mean, covariance, radius) (ellipsoids); untouched regions must stay bit-identical; "
+    "lower <= upper; intersect_iteratively sequences against the intersection / replacement rule.",
+    "Reference prediction through the N>=2 path of predict(); 1e-7 relative for GP batching round-off, 1e-12 otherwise; touching rectangles accept either outcome.",
+    "DESIGN.md section 3 C14")
+
 PENDING = {}
 
 
